@@ -12,7 +12,7 @@ fd, junit = tempfile.mkstemp(suffix='.xml', dir='/var/tmp'); os.close(fd)
 env = dict(os.environ); env.pop('PTB_MR_MRPRO_VERIF', None)
 cmd = ['/venv/bin/python', '-m', 'pytest', '-ra', '-q', '-p', 'no:cacheprovider', '--timeout=900',
        '--continue-on-collection-errors', f'--junitxml={junit}'] + (['-n', '8'] if os.environ.get('XDIST') else []) + args
-subprocess.call(cmd, cwd='/repo', env=env, stdout=subprocess.DEVNULL, stderr=subprocess.DEVNULL)
+subprocess.call(cmd, cwd=os.environ.get('BASELINE_REPO', '/repo'), env=dict(env, PYTHONPATH=os.path.join(os.environ.get('BASELINE_REPO', '/repo'), 'src')), stdout=subprocess.DEVNULL, stderr=subprocess.DEVNULL)
 passed, failed = set(), set()
 for tc in ET.parse(junit).getroot().iter('testcase'):
     name = f"{tc.get('classname')}::{tc.get('name')}"
